@@ -993,6 +993,10 @@ class Ranges:
             cur = st.opt.get(q) if q else None
             if cur in ("Some", "None"):
                 optv = cur
+            if q and name in ("as_ref", "as_mut", "as_deref", "as_deref_mut"):
+                # the result has the variant of the option it borrows: a later test of the result (`match x.as_ref() { Some(..) => .. }`) decides the
+                # variant of `x` as well
+                org = ("optalias", q)
             if q and name in ("cloned", "copied", "clone"):
                 for kk, vv in st.iv.items():
                     if kk.startswith(q + "@"):
@@ -1156,6 +1160,14 @@ class Ranges:
                 i_ = args[1][0] if len(args) > 1 else None
                 ok = i_ is not None and (i_[1] < ln[0] or (q and args[1][1] and self.leq(st, args[1][1], ("p", q), 1)))
                 status, detail = ("AUTO", "index %s < len %s" % (i_, ln)) if ok else ("open", "index %s vs len %s" % (i_, ln))
+        elif re.search(r"slice::.*::(split_at|split_at_mut)$", cp):
+            # panics when mid > len; the halves have mid and len - mid elements
+            ln, q = lenof(0)
+            m_ = args[1][0] if len(args) > 1 and args[1][0] is not None else (0, INF)
+            ok = m_[1] <= ln[0] or (q and len(args) > 1 and args[1][1] and self.leq(st, args[1][1], ("p", q), 0))
+            status, detail = ("AUTO", "mid %s <= len %s" % (m_, ln)) if ok else ("open", "mid %s vs len %s" % (m_, ln))
+            sub[".0#len"] = (max(0, m_[0]), m_[1])
+            sub[".1#len"] = (max(0, ln[0] - m_[1]) if m_[1] != INF else 0, max(0, ln[1] - m_[0]) if ln[1] != INF else INF)
         elif re.search(r"slice::.*::copy_from_slice$", cp):
             l0, q0 = lenof(0)
             l1, q1 = lenof(1)
@@ -1373,6 +1385,12 @@ class Ranges:
                 return False
             if nm is not None:
                 st.opt[o[1]] = nm
+                oo = st.org.get(o[1])
+                if oo is not None and oo[0] == "optalias":
+                    c2 = st.opt.get(oo[1])
+                    if c2 is not None and c2 != nm:
+                        return False
+                    st.opt[oo[1]] = nm
         elif o is not None and o[0] == "alias":
             q = o[1]
             w = st.iv.get(q) or (-INF, INF)
@@ -1407,6 +1425,12 @@ class Ranges:
             rest = [nm for val, nm in vt.items() if val not in allvals]
             if len(rest) == 1:
                 st.opt[o[1]] = rest[0]
+                oo = st.org.get(o[1])
+                if oo is not None and oo[0] == "optalias":
+                    c2 = st.opt.get(oo[1])
+                    if c2 is not None and c2 != rest[0]:
+                        return False
+                    st.opt[oo[1]] = rest[0]
         elif o is not None and o[0] == "alias":
             q = o[1]
             w = st.iv.get(q)
